@@ -325,4 +325,10 @@ def rule_pre1(ctx):
         ctx.add("PRE-1", "type:" + t, t in types, "src/verifying/problem/standard_interpretation.p", "type %s is declared in the preamble" % t)
 
 
-RULES = [rule_tokens, rule_sorts, rule_comparison, rule_prec, rule_pre1]
+def rule_one_constant_per_symbol(ctx):
+    """a symbol is rendered as the same TPTP constant in every formula of a problem (shared with C09)"""
+    from .c09 import rule_problem_rename
+    rule_problem_rename(ctx)
+
+
+RULES = [rule_tokens, rule_sorts, rule_comparison, rule_prec, rule_pre1, rule_one_constant_per_symbol]
